@@ -128,7 +128,7 @@ func viZlibRead(data []byte) func() {
 // one instance may be touched through the other. Natively the two workloads run
 // concurrently under the race detector.
 func VerifInstances() {
-	pair := verifrt.Pick("pair", 9)
+	pair := verifrt.Pick("pair", 10)
 	n := verifrt.Param("N")
 	win := verifrt.Bytes(n) // symbolic stream bytes for reader workloads
 	// a dynamic-block stream (template 2) with the symbolic window as payload
@@ -160,6 +160,19 @@ func VerifInstances() {
 		a, b = viGzipWrite(-2, 200), viZlibWrite(1, 200)
 	case 8:
 		a, b = viHuffWrite(0), viHuffWrite(5)
+	case 9:
+		// two Readers building tables for distance codes longer than 10 bits (long-code scratch)
+		w5 := &vbw{}
+		lit5 := make([]uint8, 258)
+		lit5[97], lit5[256], lit5[257] = 1, 2, 2
+		dist5 := make([]uint8, 16)
+		for i := 0; i < 14; i++ {
+			dist5[i] = uint8(1 + i)
+		}
+		dist5[14], dist5[15] = 15, 15
+		vbDynHeader(w5, true, lit5, dist5, false)
+		long := append(w5.bytes(), win...)
+		a, b = viFlateRead(long), viFlateRead(long)
 	}
 	verifrt.Parallel(a, b)
 	verifrt.Cover("ran")
